@@ -124,13 +124,17 @@ class AsyncTLSStreamTransport(AsyncStreamTransport):
 
         read_bio = _ssl_module.MemoryBIO()
         write_bio = _ssl_module.MemoryBIO()
-        ssl_object = ssl_context.wrap_bio(
-            read_bio,
-            write_bio,
-            server_side=server_side,
-            server_hostname=server_hostname,
-            session=session,
-        )
+        try:
+            ssl_object = ssl_context.wrap_bio(
+                read_bio,
+                write_bio,
+                server_side=server_side,
+                server_hostname=server_hostname,
+                session=session,
+            )
+        except BaseException:
+            await aclose_forcefully(transport)
+            raise
 
         self = cls(
             _transport=transport,
